@@ -1,4 +1,5 @@
 import Dcg.Py.Ident
+import Dcg.Gen.EnumSites
 /-
 Dcg.Model.Names — transliteration of `reference.py`:
 `FieldNameResolver.get_valid_name` (as of the tree with the two sanitiser repairs: per-character
@@ -202,12 +203,15 @@ def getValidNameBaseF (fuel : Nat) (E : Env) (k : Kind) (cfg : Cfg) (name : List
 
 def mro : List Char := ['m', 'r', 'o']
 
-/-- the name and excludes actually used (EnumFieldNameResolver special-cases `mro`) -/
+/-- the name and excludes actually used: `EnumFieldNameResolver.get_valid_name` rewrites some names and adds
+names of its own to the excludes before it calls the base class. WHICH names is read off the source
+(`Dcg.Gen.EnumSites`: today it rewrites `mro` to `mro_` and reserves `mro`), so the model follows the code
+when the reservation moves; what the callers must then provide is stated in Props/C09 (call sites). -/
 def effName (k : Kind) (name : List Char) : List Char :=
-  if k = .enum ∧ name = mro then mro ++ ['_'] else name
+  if k = .enum then (Dcg.Gen.EnumSites.resolverRenames.lookup name).getD name else name
 
 def effExcl (k : Kind) (excl : List (List Char)) : List (List Char) :=
-  if k = .enum then mro :: excl else excl
+  if k = .enum then Dcg.Gen.EnumSites.resolverExcludes ++ excl else excl
 
 def getValidNameF (fuel : Nat) (E : Env) (k : Kind) (cfg : Cfg) (name : List Char)
     (excl : List (List Char)) (ign uc : Bool) : Res (List Char) :=
